@@ -11,6 +11,8 @@ def main():
     seed = int(os.environ.get("VERIF_SEED", "0") or 0)
     prop = a.prop.upper()
     mod = importlib.import_module(f"hv.checks.{prop.lower()}")
+    if prop == "SELFTEST":
+        sys.exit(mod.selftest())
     if a.replay:
         body = json.loads(open(a.replay).read())
         rc = mod.replay(body)
